@@ -17,6 +17,39 @@ use crate::vhost_user::verif::spec::{fe, pf};
 use std::mem::ManuallyDrop;
 use std::os::unix::io::FromRawFd;
 
+// ---- C10: the endpoint lock must be held at every socket call of a transaction --------------------
+// Every path to the shared socket goes through the handle's Mutex, so a second caller can interleave
+// with a transaction only at a socket syscall made while the lock is free.  The stubs below are the
+// syscalls; they record if the lock could be taken at that moment.
+static mut NODE_PTR: (*const Mutex<FrontendInternal>, u64) = (std::ptr::null(), 0x51c0_77aa_0001_c10c);
+static mut LOCK_FREE_AT_SYSCALL: (bool, u64) = (false, 0x51c0_77aa_0002_c10c);
+fn c10_probe() {
+    // SAFETY: single-threaded harness; the pointer is the live Arc payload of the handle under test
+    unsafe {
+        if !NODE_PTR.0.is_null() {
+            if let Ok(guard) = (*NODE_PTR.0).try_lock() {
+                LOCK_FREE_AT_SYSCALL.0 = true;
+                drop(guard);
+            }
+        }
+    }
+}
+unsafe fn fe_recvmsg(fd: RawFd, iovecs: &mut [libc::iovec], in_fds: &mut [RawFd]) -> vmm_sys_util::errno::Result<(usize, usize)> {
+    c10_probe();
+    g::ghost_recvmsg(fd, iovecs, in_fds)
+}
+fn fe_sendmsg<D: vmm_sys_util::sock_ctrl_msg::IntoIovec>(fd: RawFd, out_data: &[D], out_fds: &[RawFd]) -> vmm_sys_util::errno::Result<usize> {
+    c10_probe();
+    g::ghost_sendmsg(fd, out_data, out_fds)
+}
+unsafe fn c10_after_call() {
+    assert!(!LOCK_FREE_AT_SYSCALL.0, "C10: the endpoint lock was free during a socket call of the transaction");
+    if !NODE_PTR.0.is_null() {
+        let free = (*NODE_PTR.0).try_lock().is_ok();
+        assert!(free, "C10: the endpoint lock must be released when the call returns");
+    }
+}
+
 const LENT_FD: RawFd = 70; // descriptor the caller lends for transmission
 const LENT_FD2: RawFd = 71;
 
@@ -42,6 +75,8 @@ fn mk_frontend() -> (ManuallyDrop<Frontend>, St) {
         n.acked_protocol_features = st.ap;
         n.hdr_flags = if st.need_reply { VhostUserHeaderFlag::NEED_REPLY } else { VhostUserHeaderFlag::empty() };
     }
+    // SAFETY: single-threaded harness
+    unsafe { NODE_PTR.0 = Arc::as_ptr(&f.node) };
     // SAFETY: ghost bookkeeping
     unsafe {
         g::G.lent_lo = LENT_FD;
@@ -550,6 +585,8 @@ fn e_frontend(op: u32, variant: usize) {
             _ => {}
         }
     }
+    // SAFETY: single-threaded harness
+    unsafe { c10_after_call() };
     // with a reply that answers another request the witness is the error path
     let wrong = unsafe { REPLY_CLASS.0 >= 1 && REPLY_CLASS.0 <= 4 && g::G.rx_calls > 0 };
     kani::cover!(if wrong { !wit } else { wit }, "witness: the operation's success path (error path for a foreign reply) is reachable");
@@ -596,6 +633,7 @@ fn e_frontend_get_config(class: usize) {
             assert!(g::tx32(12) == off && g::tx32(16) == LEN as u32 && g::tx32(20) == 1);
             assert!(g::tx32(24) == spec::rd32(&data, 0), "C01: request payload");
             assert!(!g::G.blocked, "C03: the failure reply carries no payload; waiting for it blocks forever while the peer is alive");
+            c10_after_call();
             if let Ok((cfg, payload)) = &r {
                 assert!(class == 0, "C03/C06: only the conformant reply may be reported as success");
                 assert!(cfg.size == LEN as u32 && cfg.offset == off);
@@ -612,8 +650,8 @@ macro_rules! e_fe {
     ($name:ident, $op:expr, $variant:expr) => {
         #[kani::proof]
         #[kani::unwind(5)]
-        #[kani::stub(vmm_sys_util::sock_ctrl_msg::raw_recvmsg, g::ghost_recvmsg)]
-        #[kani::stub(vmm_sys_util::sock_ctrl_msg::raw_sendmsg, g::ghost_sendmsg)]
+        #[kani::stub(vmm_sys_util::sock_ctrl_msg::raw_recvmsg, fe_recvmsg)]
+        #[kani::stub(vmm_sys_util::sock_ctrl_msg::raw_sendmsg, fe_sendmsg)]
         #[kani::stub(libc::close, g::ghost_close)]
         #[kani::stub(<std::os::fd::OwnedFd as std::ops::Drop>::drop, g::ghost_ownedfd_drop)]
         #[kani::stub(std::alloc::handle_alloc_error, g::ghost_alloc_error)]
@@ -626,8 +664,8 @@ macro_rules! e_fe_cfg {
     ($name:ident, $fails:expr) => {
         #[kani::proof]
         #[kani::unwind(5)]
-        #[kani::stub(vmm_sys_util::sock_ctrl_msg::raw_recvmsg, g::ghost_recvmsg)]
-        #[kani::stub(vmm_sys_util::sock_ctrl_msg::raw_sendmsg, g::ghost_sendmsg)]
+        #[kani::stub(vmm_sys_util::sock_ctrl_msg::raw_recvmsg, fe_recvmsg)]
+        #[kani::stub(vmm_sys_util::sock_ctrl_msg::raw_sendmsg, fe_sendmsg)]
         #[kani::stub(libc::close, g::ghost_close)]
         #[kani::stub(<std::os::fd::OwnedFd as std::ops::Drop>::drop, g::ghost_ownedfd_drop)]
         #[kani::stub(std::alloc::handle_alloc_error, g::ghost_alloc_error)]
@@ -638,113 +676,113 @@ macro_rules! e_fe_cfg {
 }
 
 // ==== generated by tools/gen_e_fe.py ====
-// @harness props=C01,C02,C03,C06 tier=quick reach=off timeout=500 bound="Frontend::get_features: all argument values, five 64-bit negotiation/limit words, NEED_REPLY on/off, peer reply header of one concrete class (conformant unless named in the harness), 40 symbolic body bytes, 0..=2 descriptors; one call" stubs="vmm-sys-util raw_recvmsg/raw_sendmsg (ghost stream socket), libc::close + OwnedFd::drop (ghost descriptor table), handle_alloc_error (assume false)"
+// @harness props=C01,C02,C03,C06,C10 tier=quick reach=off timeout=500 bound="Frontend::get_features: all argument values, five 64-bit negotiation/limit words, NEED_REPLY on/off, peer reply header of one concrete class (conformant unless named in the harness), 40 symbolic body bytes, 0..=2 descriptors; one call" stubs="vmm-sys-util raw_recvmsg/raw_sendmsg (ghost stream socket), libc::close + OwnedFd::drop (ghost descriptor table), handle_alloc_error (assume false)"
 e_fe!(e_fe_get_features, 1, 0);
-// @harness props=C01,C02,C03,C06 tier=quick reach=off timeout=500 bound="Frontend::get_features_foreign_code: all argument values, five 64-bit negotiation/limit words, NEED_REPLY on/off, peer reply header of one concrete class (conformant unless named in the harness), 40 symbolic body bytes, 0..=2 descriptors; one call" stubs="vmm-sys-util raw_recvmsg/raw_sendmsg (ghost stream socket), libc::close + OwnedFd::drop (ghost descriptor table), handle_alloc_error (assume false)"
+// @harness props=C01,C02,C03,C06,C10 tier=quick reach=off timeout=500 bound="Frontend::get_features_foreign_code: all argument values, five 64-bit negotiation/limit words, NEED_REPLY on/off, peer reply header of one concrete class (conformant unless named in the harness), 40 symbolic body bytes, 0..=2 descriptors; one call" stubs="vmm-sys-util raw_recvmsg/raw_sendmsg (ghost stream socket), libc::close + OwnedFd::drop (ghost descriptor table), handle_alloc_error (assume false)"
 e_fe!(e_fe_get_features_foreign_code, 1, 256);
-// @harness props=C01,C02,C03,C06 tier=quick reach=off timeout=500 bound="Frontend::get_features_noreplyflag: all argument values, five 64-bit negotiation/limit words, NEED_REPLY on/off, peer reply header of one concrete class (conformant unless named in the harness), 40 symbolic body bytes, 0..=2 descriptors; one call" stubs="vmm-sys-util raw_recvmsg/raw_sendmsg (ghost stream socket), libc::close + OwnedFd::drop (ghost descriptor table), handle_alloc_error (assume false)"
+// @harness props=C01,C02,C03,C06,C10 tier=quick reach=off timeout=500 bound="Frontend::get_features_noreplyflag: all argument values, five 64-bit negotiation/limit words, NEED_REPLY on/off, peer reply header of one concrete class (conformant unless named in the harness), 40 symbolic body bytes, 0..=2 descriptors; one call" stubs="vmm-sys-util raw_recvmsg/raw_sendmsg (ghost stream socket), libc::close + OwnedFd::drop (ghost descriptor table), handle_alloc_error (assume false)"
 e_fe!(e_fe_get_features_noreplyflag, 1, 512);
-// @harness props=C01,C02,C03,C06 tier=thorough reach=off timeout=500 bound="Frontend::get_features_version2: all argument values, five 64-bit negotiation/limit words, NEED_REPLY on/off, peer reply header of one concrete class (conformant unless named in the harness), 40 symbolic body bytes, 0..=2 descriptors; one call" stubs="vmm-sys-util raw_recvmsg/raw_sendmsg (ghost stream socket), libc::close + OwnedFd::drop (ghost descriptor table), handle_alloc_error (assume false)"
+// @harness props=C01,C02,C03,C06,C10 tier=thorough reach=off timeout=500 bound="Frontend::get_features_version2: all argument values, five 64-bit negotiation/limit words, NEED_REPLY on/off, peer reply header of one concrete class (conformant unless named in the harness), 40 symbolic body bytes, 0..=2 descriptors; one call" stubs="vmm-sys-util raw_recvmsg/raw_sendmsg (ghost stream socket), libc::close + OwnedFd::drop (ghost descriptor table), handle_alloc_error (assume false)"
 e_fe!(e_fe_get_features_version2, 1, 768);
-// @harness props=C01,C02,C03,C06 tier=thorough reach=off timeout=500 bound="Frontend::get_features_reservedbit: all argument values, five 64-bit negotiation/limit words, NEED_REPLY on/off, peer reply header of one concrete class (conformant unless named in the harness), 40 symbolic body bytes, 0..=2 descriptors; one call" stubs="vmm-sys-util raw_recvmsg/raw_sendmsg (ghost stream socket), libc::close + OwnedFd::drop (ghost descriptor table), handle_alloc_error (assume false)"
+// @harness props=C01,C02,C03,C06,C10 tier=thorough reach=off timeout=500 bound="Frontend::get_features_reservedbit: all argument values, five 64-bit negotiation/limit words, NEED_REPLY on/off, peer reply header of one concrete class (conformant unless named in the harness), 40 symbolic body bytes, 0..=2 descriptors; one call" stubs="vmm-sys-util raw_recvmsg/raw_sendmsg (ghost stream socket), libc::close + OwnedFd::drop (ghost descriptor table), handle_alloc_error (assume false)"
 e_fe!(e_fe_get_features_reservedbit, 1, 1024);
-// @harness props=C01,C02,C03,C06 tier=thorough reach=off timeout=500 bound="Frontend::get_features_size_plus1: all argument values, five 64-bit negotiation/limit words, NEED_REPLY on/off, peer reply header of one concrete class (conformant unless named in the harness), 40 symbolic body bytes, 0..=2 descriptors; one call" stubs="vmm-sys-util raw_recvmsg/raw_sendmsg (ghost stream socket), libc::close + OwnedFd::drop (ghost descriptor table), handle_alloc_error (assume false)"
+// @harness props=C01,C02,C03,C06,C10 tier=thorough reach=off timeout=500 bound="Frontend::get_features_size_plus1: all argument values, five 64-bit negotiation/limit words, NEED_REPLY on/off, peer reply header of one concrete class (conformant unless named in the harness), 40 symbolic body bytes, 0..=2 descriptors; one call" stubs="vmm-sys-util raw_recvmsg/raw_sendmsg (ghost stream socket), libc::close + OwnedFd::drop (ghost descriptor table), handle_alloc_error (assume false)"
 e_fe!(e_fe_get_features_size_plus1, 1, 1280);
-// @harness props=C01,C02,C03,C06 tier=quick reach=off timeout=500 bound="Frontend::set_features: all argument values, five 64-bit negotiation/limit words, NEED_REPLY on/off, peer reply header of one concrete class (conformant unless named in the harness), 40 symbolic body bytes, 0..=2 descriptors; one call" stubs="vmm-sys-util raw_recvmsg/raw_sendmsg (ghost stream socket), libc::close + OwnedFd::drop (ghost descriptor table), handle_alloc_error (assume false)"
+// @harness props=C01,C02,C03,C06,C10 tier=quick reach=off timeout=500 bound="Frontend::set_features: all argument values, five 64-bit negotiation/limit words, NEED_REPLY on/off, peer reply header of one concrete class (conformant unless named in the harness), 40 symbolic body bytes, 0..=2 descriptors; one call" stubs="vmm-sys-util raw_recvmsg/raw_sendmsg (ghost stream socket), libc::close + OwnedFd::drop (ghost descriptor table), handle_alloc_error (assume false)"
 e_fe!(e_fe_set_features, 2, 0);
-// @harness props=C01,C02,C03,C06 tier=thorough reach=off timeout=500 bound="Frontend::set_owner: all argument values, five 64-bit negotiation/limit words, NEED_REPLY on/off, peer reply header of one concrete class (conformant unless named in the harness), 40 symbolic body bytes, 0..=2 descriptors; one call" stubs="vmm-sys-util raw_recvmsg/raw_sendmsg (ghost stream socket), libc::close + OwnedFd::drop (ghost descriptor table), handle_alloc_error (assume false)"
+// @harness props=C01,C02,C03,C06,C10 tier=thorough reach=off timeout=500 bound="Frontend::set_owner: all argument values, five 64-bit negotiation/limit words, NEED_REPLY on/off, peer reply header of one concrete class (conformant unless named in the harness), 40 symbolic body bytes, 0..=2 descriptors; one call" stubs="vmm-sys-util raw_recvmsg/raw_sendmsg (ghost stream socket), libc::close + OwnedFd::drop (ghost descriptor table), handle_alloc_error (assume false)"
 e_fe!(e_fe_set_owner, 3, 0);
-// @harness props=C01,C02,C03,C06 tier=thorough reach=off timeout=500 bound="Frontend::reset_owner: all argument values, five 64-bit negotiation/limit words, NEED_REPLY on/off, peer reply header of one concrete class (conformant unless named in the harness), 40 symbolic body bytes, 0..=2 descriptors; one call" stubs="vmm-sys-util raw_recvmsg/raw_sendmsg (ghost stream socket), libc::close + OwnedFd::drop (ghost descriptor table), handle_alloc_error (assume false)"
+// @harness props=C01,C02,C03,C06,C10 tier=thorough reach=off timeout=500 bound="Frontend::reset_owner: all argument values, five 64-bit negotiation/limit words, NEED_REPLY on/off, peer reply header of one concrete class (conformant unless named in the harness), 40 symbolic body bytes, 0..=2 descriptors; one call" stubs="vmm-sys-util raw_recvmsg/raw_sendmsg (ghost stream socket), libc::close + OwnedFd::drop (ghost descriptor table), handle_alloc_error (assume false)"
 e_fe!(e_fe_reset_owner, 4, 0);
-// @harness props=C01,C02,C03,C06,C09 tier=quick reach=off timeout=500 bound="Frontend::set_mem_table_2regions: all argument values, five 64-bit negotiation/limit words, NEED_REPLY on/off, peer reply header of one concrete class (conformant unless named in the harness), 40 symbolic body bytes, 0..=2 descriptors; one call" stubs="vmm-sys-util raw_recvmsg/raw_sendmsg (ghost stream socket), libc::close + OwnedFd::drop (ghost descriptor table), handle_alloc_error (assume false)"
+// @harness props=C01,C02,C03,C06,C09,C10 tier=quick reach=off timeout=500 bound="Frontend::set_mem_table_2regions: all argument values, five 64-bit negotiation/limit words, NEED_REPLY on/off, peer reply header of one concrete class (conformant unless named in the harness), 40 symbolic body bytes, 0..=2 descriptors; one call" stubs="vmm-sys-util raw_recvmsg/raw_sendmsg (ghost stream socket), libc::close + OwnedFd::drop (ghost descriptor table), handle_alloc_error (assume false)"
 e_fe!(e_fe_set_mem_table_2regions, 5, 2);
-// @harness props=C01,C02,C03,C06,C09 tier=thorough reach=off timeout=500 bound="Frontend::set_mem_table_1region: all argument values, five 64-bit negotiation/limit words, NEED_REPLY on/off, peer reply header of one concrete class (conformant unless named in the harness), 40 symbolic body bytes, 0..=2 descriptors; one call" stubs="vmm-sys-util raw_recvmsg/raw_sendmsg (ghost stream socket), libc::close + OwnedFd::drop (ghost descriptor table), handle_alloc_error (assume false)"
+// @harness props=C01,C02,C03,C06,C09,C10 tier=thorough reach=off timeout=500 bound="Frontend::set_mem_table_1region: all argument values, five 64-bit negotiation/limit words, NEED_REPLY on/off, peer reply header of one concrete class (conformant unless named in the harness), 40 symbolic body bytes, 0..=2 descriptors; one call" stubs="vmm-sys-util raw_recvmsg/raw_sendmsg (ghost stream socket), libc::close + OwnedFd::drop (ghost descriptor table), handle_alloc_error (assume false)"
 e_fe!(e_fe_set_mem_table_1region, 5, 1);
-// @harness props=C01,C02,C03,C06,C09 tier=thorough reach=off timeout=500 bound="Frontend::set_mem_table_empty: all argument values, five 64-bit negotiation/limit words, NEED_REPLY on/off, peer reply header of one concrete class (conformant unless named in the harness), 40 symbolic body bytes, 0..=2 descriptors; one call" stubs="vmm-sys-util raw_recvmsg/raw_sendmsg (ghost stream socket), libc::close + OwnedFd::drop (ghost descriptor table), handle_alloc_error (assume false)"
+// @harness props=C01,C02,C03,C06,C09,C10 tier=thorough reach=off timeout=500 bound="Frontend::set_mem_table_empty: all argument values, five 64-bit negotiation/limit words, NEED_REPLY on/off, peer reply header of one concrete class (conformant unless named in the harness), 40 symbolic body bytes, 0..=2 descriptors; one call" stubs="vmm-sys-util raw_recvmsg/raw_sendmsg (ghost stream socket), libc::close + OwnedFd::drop (ghost descriptor table), handle_alloc_error (assume false)"
 e_fe!(e_fe_set_mem_table_empty, 5, 0);
-// @harness props=C01,C02,C03,C06,C07,C09 tier=quick reach=off timeout=500 bound="Frontend::set_log_base: all argument values, five 64-bit negotiation/limit words, NEED_REPLY on/off, peer reply header of one concrete class (conformant unless named in the harness), 40 symbolic body bytes, 0..=2 descriptors; one call" stubs="vmm-sys-util raw_recvmsg/raw_sendmsg (ghost stream socket), libc::close + OwnedFd::drop (ghost descriptor table), handle_alloc_error (assume false)"
+// @harness props=C01,C02,C03,C06,C07,C09,C10 tier=quick reach=off timeout=500 bound="Frontend::set_log_base: all argument values, five 64-bit negotiation/limit words, NEED_REPLY on/off, peer reply header of one concrete class (conformant unless named in the harness), 40 symbolic body bytes, 0..=2 descriptors; one call" stubs="vmm-sys-util raw_recvmsg/raw_sendmsg (ghost stream socket), libc::close + OwnedFd::drop (ghost descriptor table), handle_alloc_error (assume false)"
 e_fe!(e_fe_set_log_base, 6, 0);
-// @harness props=C01,C02,C03,C06,C09 tier=thorough reach=off timeout=500 bound="Frontend::set_log_fd: all argument values, five 64-bit negotiation/limit words, NEED_REPLY on/off, peer reply header of one concrete class (conformant unless named in the harness), 40 symbolic body bytes, 0..=2 descriptors; one call" stubs="vmm-sys-util raw_recvmsg/raw_sendmsg (ghost stream socket), libc::close + OwnedFd::drop (ghost descriptor table), handle_alloc_error (assume false)"
+// @harness props=C01,C02,C03,C06,C09,C10 tier=thorough reach=off timeout=500 bound="Frontend::set_log_fd: all argument values, five 64-bit negotiation/limit words, NEED_REPLY on/off, peer reply header of one concrete class (conformant unless named in the harness), 40 symbolic body bytes, 0..=2 descriptors; one call" stubs="vmm-sys-util raw_recvmsg/raw_sendmsg (ghost stream socket), libc::close + OwnedFd::drop (ghost descriptor table), handle_alloc_error (assume false)"
 e_fe!(e_fe_set_log_fd, 7, 0);
-// @harness props=C01,C02,C03,C06 tier=thorough reach=off timeout=500 bound="Frontend::set_vring_num: all argument values, five 64-bit negotiation/limit words, NEED_REPLY on/off, peer reply header of one concrete class (conformant unless named in the harness), 40 symbolic body bytes, 0..=2 descriptors; one call" stubs="vmm-sys-util raw_recvmsg/raw_sendmsg (ghost stream socket), libc::close + OwnedFd::drop (ghost descriptor table), handle_alloc_error (assume false)"
+// @harness props=C01,C02,C03,C06,C10 tier=thorough reach=off timeout=500 bound="Frontend::set_vring_num: all argument values, five 64-bit negotiation/limit words, NEED_REPLY on/off, peer reply header of one concrete class (conformant unless named in the harness), 40 symbolic body bytes, 0..=2 descriptors; one call" stubs="vmm-sys-util raw_recvmsg/raw_sendmsg (ghost stream socket), libc::close + OwnedFd::drop (ghost descriptor table), handle_alloc_error (assume false)"
 e_fe!(e_fe_set_vring_num, 8, 0);
-// @harness props=C01,C02,C03,C06 tier=thorough reach=off timeout=500 bound="Frontend::set_vring_num_foreign_code: all argument values, five 64-bit negotiation/limit words, NEED_REPLY on/off, peer reply header of one concrete class (conformant unless named in the harness), 40 symbolic body bytes, 0..=2 descriptors; one call" stubs="vmm-sys-util raw_recvmsg/raw_sendmsg (ghost stream socket), libc::close + OwnedFd::drop (ghost descriptor table), handle_alloc_error (assume false)"
+// @harness props=C01,C02,C03,C06,C10 tier=thorough reach=off timeout=500 bound="Frontend::set_vring_num_foreign_code: all argument values, five 64-bit negotiation/limit words, NEED_REPLY on/off, peer reply header of one concrete class (conformant unless named in the harness), 40 symbolic body bytes, 0..=2 descriptors; one call" stubs="vmm-sys-util raw_recvmsg/raw_sendmsg (ghost stream socket), libc::close + OwnedFd::drop (ghost descriptor table), handle_alloc_error (assume false)"
 e_fe!(e_fe_set_vring_num_foreign_code, 8, 256);
-// @harness props=C01,C02,C03,C06 tier=thorough reach=off timeout=500 bound="Frontend::set_vring_num_noreplyflag: all argument values, five 64-bit negotiation/limit words, NEED_REPLY on/off, peer reply header of one concrete class (conformant unless named in the harness), 40 symbolic body bytes, 0..=2 descriptors; one call" stubs="vmm-sys-util raw_recvmsg/raw_sendmsg (ghost stream socket), libc::close + OwnedFd::drop (ghost descriptor table), handle_alloc_error (assume false)"
+// @harness props=C01,C02,C03,C06,C10 tier=thorough reach=off timeout=500 bound="Frontend::set_vring_num_noreplyflag: all argument values, five 64-bit negotiation/limit words, NEED_REPLY on/off, peer reply header of one concrete class (conformant unless named in the harness), 40 symbolic body bytes, 0..=2 descriptors; one call" stubs="vmm-sys-util raw_recvmsg/raw_sendmsg (ghost stream socket), libc::close + OwnedFd::drop (ghost descriptor table), handle_alloc_error (assume false)"
 e_fe!(e_fe_set_vring_num_noreplyflag, 8, 512);
-// @harness props=C01,C02,C03,C06 tier=thorough reach=off timeout=500 bound="Frontend::set_vring_num_version2: all argument values, five 64-bit negotiation/limit words, NEED_REPLY on/off, peer reply header of one concrete class (conformant unless named in the harness), 40 symbolic body bytes, 0..=2 descriptors; one call" stubs="vmm-sys-util raw_recvmsg/raw_sendmsg (ghost stream socket), libc::close + OwnedFd::drop (ghost descriptor table), handle_alloc_error (assume false)"
+// @harness props=C01,C02,C03,C06,C10 tier=thorough reach=off timeout=500 bound="Frontend::set_vring_num_version2: all argument values, five 64-bit negotiation/limit words, NEED_REPLY on/off, peer reply header of one concrete class (conformant unless named in the harness), 40 symbolic body bytes, 0..=2 descriptors; one call" stubs="vmm-sys-util raw_recvmsg/raw_sendmsg (ghost stream socket), libc::close + OwnedFd::drop (ghost descriptor table), handle_alloc_error (assume false)"
 e_fe!(e_fe_set_vring_num_version2, 8, 768);
-// @harness props=C01,C02,C03,C06 tier=thorough reach=off timeout=500 bound="Frontend::set_vring_num_reservedbit: all argument values, five 64-bit negotiation/limit words, NEED_REPLY on/off, peer reply header of one concrete class (conformant unless named in the harness), 40 symbolic body bytes, 0..=2 descriptors; one call" stubs="vmm-sys-util raw_recvmsg/raw_sendmsg (ghost stream socket), libc::close + OwnedFd::drop (ghost descriptor table), handle_alloc_error (assume false)"
+// @harness props=C01,C02,C03,C06,C10 tier=thorough reach=off timeout=500 bound="Frontend::set_vring_num_reservedbit: all argument values, five 64-bit negotiation/limit words, NEED_REPLY on/off, peer reply header of one concrete class (conformant unless named in the harness), 40 symbolic body bytes, 0..=2 descriptors; one call" stubs="vmm-sys-util raw_recvmsg/raw_sendmsg (ghost stream socket), libc::close + OwnedFd::drop (ghost descriptor table), handle_alloc_error (assume false)"
 e_fe!(e_fe_set_vring_num_reservedbit, 8, 1024);
-// @harness props=C01,C02,C03,C06 tier=thorough reach=off timeout=500 bound="Frontend::set_vring_num_size_plus1: all argument values, five 64-bit negotiation/limit words, NEED_REPLY on/off, peer reply header of one concrete class (conformant unless named in the harness), 40 symbolic body bytes, 0..=2 descriptors; one call" stubs="vmm-sys-util raw_recvmsg/raw_sendmsg (ghost stream socket), libc::close + OwnedFd::drop (ghost descriptor table), handle_alloc_error (assume false)"
+// @harness props=C01,C02,C03,C06,C10 tier=thorough reach=off timeout=500 bound="Frontend::set_vring_num_size_plus1: all argument values, five 64-bit negotiation/limit words, NEED_REPLY on/off, peer reply header of one concrete class (conformant unless named in the harness), 40 symbolic body bytes, 0..=2 descriptors; one call" stubs="vmm-sys-util raw_recvmsg/raw_sendmsg (ghost stream socket), libc::close + OwnedFd::drop (ghost descriptor table), handle_alloc_error (assume false)"
 e_fe!(e_fe_set_vring_num_size_plus1, 8, 1280);
-// @harness props=C01,C02,C03,C06 tier=quick reach=off timeout=500 bound="Frontend::set_vring_addr: all argument values, five 64-bit negotiation/limit words, NEED_REPLY on/off, peer reply header of one concrete class (conformant unless named in the harness), 40 symbolic body bytes, 0..=2 descriptors; one call" stubs="vmm-sys-util raw_recvmsg/raw_sendmsg (ghost stream socket), libc::close + OwnedFd::drop (ghost descriptor table), handle_alloc_error (assume false)"
+// @harness props=C01,C02,C03,C06,C10 tier=quick reach=off timeout=500 bound="Frontend::set_vring_addr: all argument values, five 64-bit negotiation/limit words, NEED_REPLY on/off, peer reply header of one concrete class (conformant unless named in the harness), 40 symbolic body bytes, 0..=2 descriptors; one call" stubs="vmm-sys-util raw_recvmsg/raw_sendmsg (ghost stream socket), libc::close + OwnedFd::drop (ghost descriptor table), handle_alloc_error (assume false)"
 e_fe!(e_fe_set_vring_addr, 9, 0);
-// @harness props=C01,C02,C03,C06 tier=thorough reach=off timeout=500 bound="Frontend::set_vring_base: all argument values, five 64-bit negotiation/limit words, NEED_REPLY on/off, peer reply header of one concrete class (conformant unless named in the harness), 40 symbolic body bytes, 0..=2 descriptors; one call" stubs="vmm-sys-util raw_recvmsg/raw_sendmsg (ghost stream socket), libc::close + OwnedFd::drop (ghost descriptor table), handle_alloc_error (assume false)"
+// @harness props=C01,C02,C03,C06,C10 tier=thorough reach=off timeout=500 bound="Frontend::set_vring_base: all argument values, five 64-bit negotiation/limit words, NEED_REPLY on/off, peer reply header of one concrete class (conformant unless named in the harness), 40 symbolic body bytes, 0..=2 descriptors; one call" stubs="vmm-sys-util raw_recvmsg/raw_sendmsg (ghost stream socket), libc::close + OwnedFd::drop (ghost descriptor table), handle_alloc_error (assume false)"
 e_fe!(e_fe_set_vring_base, 10, 0);
-// @harness props=C01,C02,C03,C06 tier=quick reach=off timeout=500 bound="Frontend::get_vring_base: all argument values, five 64-bit negotiation/limit words, NEED_REPLY on/off, peer reply header of one concrete class (conformant unless named in the harness), 40 symbolic body bytes, 0..=2 descriptors; one call" stubs="vmm-sys-util raw_recvmsg/raw_sendmsg (ghost stream socket), libc::close + OwnedFd::drop (ghost descriptor table), handle_alloc_error (assume false)"
+// @harness props=C01,C02,C03,C06,C10 tier=quick reach=off timeout=500 bound="Frontend::get_vring_base: all argument values, five 64-bit negotiation/limit words, NEED_REPLY on/off, peer reply header of one concrete class (conformant unless named in the harness), 40 symbolic body bytes, 0..=2 descriptors; one call" stubs="vmm-sys-util raw_recvmsg/raw_sendmsg (ghost stream socket), libc::close + OwnedFd::drop (ghost descriptor table), handle_alloc_error (assume false)"
 e_fe!(e_fe_get_vring_base, 11, 0);
-// @harness props=C01,C02,C03,C06,C09 tier=quick reach=off timeout=500 bound="Frontend::set_vring_kick: all argument values, five 64-bit negotiation/limit words, NEED_REPLY on/off, peer reply header of one concrete class (conformant unless named in the harness), 40 symbolic body bytes, 0..=2 descriptors; one call" stubs="vmm-sys-util raw_recvmsg/raw_sendmsg (ghost stream socket), libc::close + OwnedFd::drop (ghost descriptor table), handle_alloc_error (assume false)"
+// @harness props=C01,C02,C03,C06,C09,C10 tier=quick reach=off timeout=500 bound="Frontend::set_vring_kick: all argument values, five 64-bit negotiation/limit words, NEED_REPLY on/off, peer reply header of one concrete class (conformant unless named in the harness), 40 symbolic body bytes, 0..=2 descriptors; one call" stubs="vmm-sys-util raw_recvmsg/raw_sendmsg (ghost stream socket), libc::close + OwnedFd::drop (ghost descriptor table), handle_alloc_error (assume false)"
 e_fe!(e_fe_set_vring_kick, 12, 0);
-// @harness props=C01,C02,C03,C06,C09 tier=thorough reach=off timeout=500 bound="Frontend::set_vring_call: all argument values, five 64-bit negotiation/limit words, NEED_REPLY on/off, peer reply header of one concrete class (conformant unless named in the harness), 40 symbolic body bytes, 0..=2 descriptors; one call" stubs="vmm-sys-util raw_recvmsg/raw_sendmsg (ghost stream socket), libc::close + OwnedFd::drop (ghost descriptor table), handle_alloc_error (assume false)"
+// @harness props=C01,C02,C03,C06,C09,C10 tier=thorough reach=off timeout=500 bound="Frontend::set_vring_call: all argument values, five 64-bit negotiation/limit words, NEED_REPLY on/off, peer reply header of one concrete class (conformant unless named in the harness), 40 symbolic body bytes, 0..=2 descriptors; one call" stubs="vmm-sys-util raw_recvmsg/raw_sendmsg (ghost stream socket), libc::close + OwnedFd::drop (ghost descriptor table), handle_alloc_error (assume false)"
 e_fe!(e_fe_set_vring_call, 13, 0);
-// @harness props=C01,C02,C03,C06,C09 tier=thorough reach=off timeout=500 bound="Frontend::set_vring_err: all argument values, five 64-bit negotiation/limit words, NEED_REPLY on/off, peer reply header of one concrete class (conformant unless named in the harness), 40 symbolic body bytes, 0..=2 descriptors; one call" stubs="vmm-sys-util raw_recvmsg/raw_sendmsg (ghost stream socket), libc::close + OwnedFd::drop (ghost descriptor table), handle_alloc_error (assume false)"
+// @harness props=C01,C02,C03,C06,C09,C10 tier=thorough reach=off timeout=500 bound="Frontend::set_vring_err: all argument values, five 64-bit negotiation/limit words, NEED_REPLY on/off, peer reply header of one concrete class (conformant unless named in the harness), 40 symbolic body bytes, 0..=2 descriptors; one call" stubs="vmm-sys-util raw_recvmsg/raw_sendmsg (ghost stream socket), libc::close + OwnedFd::drop (ghost descriptor table), handle_alloc_error (assume false)"
 e_fe!(e_fe_set_vring_err, 14, 0);
-// @harness props=C01,C02,C03,C06,C07 tier=quick reach=off timeout=500 bound="Frontend::get_protocol_features: all argument values, five 64-bit negotiation/limit words, NEED_REPLY on/off, peer reply header of one concrete class (conformant unless named in the harness), 40 symbolic body bytes, 0..=2 descriptors; one call" stubs="vmm-sys-util raw_recvmsg/raw_sendmsg (ghost stream socket), libc::close + OwnedFd::drop (ghost descriptor table), handle_alloc_error (assume false)"
+// @harness props=C01,C02,C03,C06,C07,C10 tier=quick reach=off timeout=500 bound="Frontend::get_protocol_features: all argument values, five 64-bit negotiation/limit words, NEED_REPLY on/off, peer reply header of one concrete class (conformant unless named in the harness), 40 symbolic body bytes, 0..=2 descriptors; one call" stubs="vmm-sys-util raw_recvmsg/raw_sendmsg (ghost stream socket), libc::close + OwnedFd::drop (ghost descriptor table), handle_alloc_error (assume false)"
 e_fe!(e_fe_get_protocol_features, 15, 0);
-// @harness props=C01,C02,C03,C06,C07 tier=quick reach=off timeout=500 bound="Frontend::set_protocol_features: all argument values, five 64-bit negotiation/limit words, NEED_REPLY on/off, peer reply header of one concrete class (conformant unless named in the harness), 40 symbolic body bytes, 0..=2 descriptors; one call" stubs="vmm-sys-util raw_recvmsg/raw_sendmsg (ghost stream socket), libc::close + OwnedFd::drop (ghost descriptor table), handle_alloc_error (assume false)"
+// @harness props=C01,C02,C03,C06,C07,C10 tier=quick reach=off timeout=500 bound="Frontend::set_protocol_features: all argument values, five 64-bit negotiation/limit words, NEED_REPLY on/off, peer reply header of one concrete class (conformant unless named in the harness), 40 symbolic body bytes, 0..=2 descriptors; one call" stubs="vmm-sys-util raw_recvmsg/raw_sendmsg (ghost stream socket), libc::close + OwnedFd::drop (ghost descriptor table), handle_alloc_error (assume false)"
 e_fe!(e_fe_set_protocol_features, 16, 0);
-// @harness props=C01,C02,C03,C06,C07 tier=thorough reach=off timeout=500 bound="Frontend::get_queue_num: all argument values, five 64-bit negotiation/limit words, NEED_REPLY on/off, peer reply header of one concrete class (conformant unless named in the harness), 40 symbolic body bytes, 0..=2 descriptors; one call" stubs="vmm-sys-util raw_recvmsg/raw_sendmsg (ghost stream socket), libc::close + OwnedFd::drop (ghost descriptor table), handle_alloc_error (assume false)"
+// @harness props=C01,C02,C03,C06,C07,C10 tier=thorough reach=off timeout=500 bound="Frontend::get_queue_num: all argument values, five 64-bit negotiation/limit words, NEED_REPLY on/off, peer reply header of one concrete class (conformant unless named in the harness), 40 symbolic body bytes, 0..=2 descriptors; one call" stubs="vmm-sys-util raw_recvmsg/raw_sendmsg (ghost stream socket), libc::close + OwnedFd::drop (ghost descriptor table), handle_alloc_error (assume false)"
 e_fe!(e_fe_get_queue_num, 17, 0);
-// @harness props=C01,C02,C03,C06,C07 tier=quick reach=off timeout=500 bound="Frontend::set_vring_enable: all argument values, five 64-bit negotiation/limit words, NEED_REPLY on/off, peer reply header of one concrete class (conformant unless named in the harness), 40 symbolic body bytes, 0..=2 descriptors; one call" stubs="vmm-sys-util raw_recvmsg/raw_sendmsg (ghost stream socket), libc::close + OwnedFd::drop (ghost descriptor table), handle_alloc_error (assume false)"
+// @harness props=C01,C02,C03,C06,C07,C10 tier=quick reach=off timeout=500 bound="Frontend::set_vring_enable: all argument values, five 64-bit negotiation/limit words, NEED_REPLY on/off, peer reply header of one concrete class (conformant unless named in the harness), 40 symbolic body bytes, 0..=2 descriptors; one call" stubs="vmm-sys-util raw_recvmsg/raw_sendmsg (ghost stream socket), libc::close + OwnedFd::drop (ghost descriptor table), handle_alloc_error (assume false)"
 e_fe!(e_fe_set_vring_enable, 18, 0);
-// @harness props=C01,C02,C03,C06,C07,C09 tier=thorough reach=off timeout=500 bound="Frontend::set_backend_req_fd: all argument values, five 64-bit negotiation/limit words, NEED_REPLY on/off, peer reply header of one concrete class (conformant unless named in the harness), 40 symbolic body bytes, 0..=2 descriptors; one call" stubs="vmm-sys-util raw_recvmsg/raw_sendmsg (ghost stream socket), libc::close + OwnedFd::drop (ghost descriptor table), handle_alloc_error (assume false)"
+// @harness props=C01,C02,C03,C06,C07,C09,C10 tier=thorough reach=off timeout=500 bound="Frontend::set_backend_req_fd: all argument values, five 64-bit negotiation/limit words, NEED_REPLY on/off, peer reply header of one concrete class (conformant unless named in the harness), 40 symbolic body bytes, 0..=2 descriptors; one call" stubs="vmm-sys-util raw_recvmsg/raw_sendmsg (ghost stream socket), libc::close + OwnedFd::drop (ghost descriptor table), handle_alloc_error (assume false)"
 e_fe!(e_fe_set_backend_req_fd, 21, 0);
-// @harness props=C01,C02,C03,C06,C07 tier=quick reach=off timeout=500 bound="Frontend::set_config_len4: all argument values, five 64-bit negotiation/limit words, NEED_REPLY on/off, peer reply header of one concrete class (conformant unless named in the harness), 40 symbolic body bytes, 0..=2 descriptors; one call" stubs="vmm-sys-util raw_recvmsg/raw_sendmsg (ghost stream socket), libc::close + OwnedFd::drop (ghost descriptor table), handle_alloc_error (assume false)"
+// @harness props=C01,C02,C03,C06,C07,C10 tier=quick reach=off timeout=500 bound="Frontend::set_config_len4: all argument values, five 64-bit negotiation/limit words, NEED_REPLY on/off, peer reply header of one concrete class (conformant unless named in the harness), 40 symbolic body bytes, 0..=2 descriptors; one call" stubs="vmm-sys-util raw_recvmsg/raw_sendmsg (ghost stream socket), libc::close + OwnedFd::drop (ghost descriptor table), handle_alloc_error (assume false)"
 e_fe!(e_fe_set_config_len4, 25, 4);
-// @harness props=C01,C02,C03,C06,C07 tier=thorough reach=off timeout=500 bound="Frontend::set_config_len1: all argument values, five 64-bit negotiation/limit words, NEED_REPLY on/off, peer reply header of one concrete class (conformant unless named in the harness), 40 symbolic body bytes, 0..=2 descriptors; one call" stubs="vmm-sys-util raw_recvmsg/raw_sendmsg (ghost stream socket), libc::close + OwnedFd::drop (ghost descriptor table), handle_alloc_error (assume false)"
+// @harness props=C01,C02,C03,C06,C07,C10 tier=thorough reach=off timeout=500 bound="Frontend::set_config_len1: all argument values, five 64-bit negotiation/limit words, NEED_REPLY on/off, peer reply header of one concrete class (conformant unless named in the harness), 40 symbolic body bytes, 0..=2 descriptors; one call" stubs="vmm-sys-util raw_recvmsg/raw_sendmsg (ghost stream socket), libc::close + OwnedFd::drop (ghost descriptor table), handle_alloc_error (assume false)"
 e_fe!(e_fe_set_config_len1, 25, 1);
-// @harness props=C01,C02,C03,C06,C07 tier=thorough reach=off timeout=500 bound="Frontend::set_config_len0: all argument values, five 64-bit negotiation/limit words, NEED_REPLY on/off, peer reply header of one concrete class (conformant unless named in the harness), 40 symbolic body bytes, 0..=2 descriptors; one call" stubs="vmm-sys-util raw_recvmsg/raw_sendmsg (ghost stream socket), libc::close + OwnedFd::drop (ghost descriptor table), handle_alloc_error (assume false)"
+// @harness props=C01,C02,C03,C06,C07,C10 tier=thorough reach=off timeout=500 bound="Frontend::set_config_len0: all argument values, five 64-bit negotiation/limit words, NEED_REPLY on/off, peer reply header of one concrete class (conformant unless named in the harness), 40 symbolic body bytes, 0..=2 descriptors; one call" stubs="vmm-sys-util raw_recvmsg/raw_sendmsg (ghost stream socket), libc::close + OwnedFd::drop (ghost descriptor table), handle_alloc_error (assume false)"
 e_fe!(e_fe_set_config_len0, 25, 0);
-// @harness props=C01,C02,C03,C06,C07,C09 tier=quick reach=off timeout=500 bound="Frontend::get_inflight_fd: all argument values, five 64-bit negotiation/limit words, NEED_REPLY on/off, peer reply header of one concrete class (conformant unless named in the harness), 40 symbolic body bytes, 0..=2 descriptors; one call" stubs="vmm-sys-util raw_recvmsg/raw_sendmsg (ghost stream socket), libc::close + OwnedFd::drop (ghost descriptor table), handle_alloc_error (assume false)"
+// @harness props=C01,C02,C03,C06,C07,C09,C10 tier=quick reach=off timeout=500 bound="Frontend::get_inflight_fd: all argument values, five 64-bit negotiation/limit words, NEED_REPLY on/off, peer reply header of one concrete class (conformant unless named in the harness), 40 symbolic body bytes, 0..=2 descriptors; one call" stubs="vmm-sys-util raw_recvmsg/raw_sendmsg (ghost stream socket), libc::close + OwnedFd::drop (ghost descriptor table), handle_alloc_error (assume false)"
 e_fe!(e_fe_get_inflight_fd, 31, 0);
-// @harness props=C01,C02,C03,C06,C07,C09 tier=thorough reach=off timeout=500 bound="Frontend::get_inflight_fd_foreign_code: all argument values, five 64-bit negotiation/limit words, NEED_REPLY on/off, peer reply header of one concrete class (conformant unless named in the harness), 40 symbolic body bytes, 0..=2 descriptors; one call" stubs="vmm-sys-util raw_recvmsg/raw_sendmsg (ghost stream socket), libc::close + OwnedFd::drop (ghost descriptor table), handle_alloc_error (assume false)"
+// @harness props=C01,C02,C03,C06,C07,C09,C10 tier=thorough reach=off timeout=500 bound="Frontend::get_inflight_fd_foreign_code: all argument values, five 64-bit negotiation/limit words, NEED_REPLY on/off, peer reply header of one concrete class (conformant unless named in the harness), 40 symbolic body bytes, 0..=2 descriptors; one call" stubs="vmm-sys-util raw_recvmsg/raw_sendmsg (ghost stream socket), libc::close + OwnedFd::drop (ghost descriptor table), handle_alloc_error (assume false)"
 e_fe!(e_fe_get_inflight_fd_foreign_code, 31, 256);
-// @harness props=C01,C02,C03,C06,C07,C09 tier=thorough reach=off timeout=500 bound="Frontend::get_inflight_fd_noreplyflag: all argument values, five 64-bit negotiation/limit words, NEED_REPLY on/off, peer reply header of one concrete class (conformant unless named in the harness), 40 symbolic body bytes, 0..=2 descriptors; one call" stubs="vmm-sys-util raw_recvmsg/raw_sendmsg (ghost stream socket), libc::close + OwnedFd::drop (ghost descriptor table), handle_alloc_error (assume false)"
+// @harness props=C01,C02,C03,C06,C07,C09,C10 tier=thorough reach=off timeout=500 bound="Frontend::get_inflight_fd_noreplyflag: all argument values, five 64-bit negotiation/limit words, NEED_REPLY on/off, peer reply header of one concrete class (conformant unless named in the harness), 40 symbolic body bytes, 0..=2 descriptors; one call" stubs="vmm-sys-util raw_recvmsg/raw_sendmsg (ghost stream socket), libc::close + OwnedFd::drop (ghost descriptor table), handle_alloc_error (assume false)"
 e_fe!(e_fe_get_inflight_fd_noreplyflag, 31, 512);
-// @harness props=C01,C02,C03,C06,C07,C09 tier=thorough reach=off timeout=500 bound="Frontend::get_inflight_fd_version2: all argument values, five 64-bit negotiation/limit words, NEED_REPLY on/off, peer reply header of one concrete class (conformant unless named in the harness), 40 symbolic body bytes, 0..=2 descriptors; one call" stubs="vmm-sys-util raw_recvmsg/raw_sendmsg (ghost stream socket), libc::close + OwnedFd::drop (ghost descriptor table), handle_alloc_error (assume false)"
+// @harness props=C01,C02,C03,C06,C07,C09,C10 tier=thorough reach=off timeout=500 bound="Frontend::get_inflight_fd_version2: all argument values, five 64-bit negotiation/limit words, NEED_REPLY on/off, peer reply header of one concrete class (conformant unless named in the harness), 40 symbolic body bytes, 0..=2 descriptors; one call" stubs="vmm-sys-util raw_recvmsg/raw_sendmsg (ghost stream socket), libc::close + OwnedFd::drop (ghost descriptor table), handle_alloc_error (assume false)"
 e_fe!(e_fe_get_inflight_fd_version2, 31, 768);
-// @harness props=C01,C02,C03,C06,C07,C09 tier=thorough reach=off timeout=500 bound="Frontend::get_inflight_fd_reservedbit: all argument values, five 64-bit negotiation/limit words, NEED_REPLY on/off, peer reply header of one concrete class (conformant unless named in the harness), 40 symbolic body bytes, 0..=2 descriptors; one call" stubs="vmm-sys-util raw_recvmsg/raw_sendmsg (ghost stream socket), libc::close + OwnedFd::drop (ghost descriptor table), handle_alloc_error (assume false)"
+// @harness props=C01,C02,C03,C06,C07,C09,C10 tier=thorough reach=off timeout=500 bound="Frontend::get_inflight_fd_reservedbit: all argument values, five 64-bit negotiation/limit words, NEED_REPLY on/off, peer reply header of one concrete class (conformant unless named in the harness), 40 symbolic body bytes, 0..=2 descriptors; one call" stubs="vmm-sys-util raw_recvmsg/raw_sendmsg (ghost stream socket), libc::close + OwnedFd::drop (ghost descriptor table), handle_alloc_error (assume false)"
 e_fe!(e_fe_get_inflight_fd_reservedbit, 31, 1024);
-// @harness props=C01,C02,C03,C06,C07,C09 tier=thorough reach=off timeout=500 bound="Frontend::get_inflight_fd_size_plus1: all argument values, five 64-bit negotiation/limit words, NEED_REPLY on/off, peer reply header of one concrete class (conformant unless named in the harness), 40 symbolic body bytes, 0..=2 descriptors; one call" stubs="vmm-sys-util raw_recvmsg/raw_sendmsg (ghost stream socket), libc::close + OwnedFd::drop (ghost descriptor table), handle_alloc_error (assume false)"
+// @harness props=C01,C02,C03,C06,C07,C09,C10 tier=thorough reach=off timeout=500 bound="Frontend::get_inflight_fd_size_plus1: all argument values, five 64-bit negotiation/limit words, NEED_REPLY on/off, peer reply header of one concrete class (conformant unless named in the harness), 40 symbolic body bytes, 0..=2 descriptors; one call" stubs="vmm-sys-util raw_recvmsg/raw_sendmsg (ghost stream socket), libc::close + OwnedFd::drop (ghost descriptor table), handle_alloc_error (assume false)"
 e_fe!(e_fe_get_inflight_fd_size_plus1, 31, 1280);
-// @harness props=C01,C02,C03,C06,C07,C09 tier=thorough reach=off timeout=500 bound="Frontend::set_inflight_fd: all argument values, five 64-bit negotiation/limit words, NEED_REPLY on/off, peer reply header of one concrete class (conformant unless named in the harness), 40 symbolic body bytes, 0..=2 descriptors; one call" stubs="vmm-sys-util raw_recvmsg/raw_sendmsg (ghost stream socket), libc::close + OwnedFd::drop (ghost descriptor table), handle_alloc_error (assume false)"
+// @harness props=C01,C02,C03,C06,C07,C09,C10 tier=thorough reach=off timeout=500 bound="Frontend::set_inflight_fd: all argument values, five 64-bit negotiation/limit words, NEED_REPLY on/off, peer reply header of one concrete class (conformant unless named in the harness), 40 symbolic body bytes, 0..=2 descriptors; one call" stubs="vmm-sys-util raw_recvmsg/raw_sendmsg (ghost stream socket), libc::close + OwnedFd::drop (ghost descriptor table), handle_alloc_error (assume false)"
 e_fe!(e_fe_set_inflight_fd, 32, 0);
-// @harness props=C01,C02,C03,C06,C07 tier=thorough reach=off timeout=500 bound="Frontend::reset_device: all argument values, five 64-bit negotiation/limit words, NEED_REPLY on/off, peer reply header of one concrete class (conformant unless named in the harness), 40 symbolic body bytes, 0..=2 descriptors; one call" stubs="vmm-sys-util raw_recvmsg/raw_sendmsg (ghost stream socket), libc::close + OwnedFd::drop (ghost descriptor table), handle_alloc_error (assume false)"
+// @harness props=C01,C02,C03,C06,C07,C10 tier=thorough reach=off timeout=500 bound="Frontend::reset_device: all argument values, five 64-bit negotiation/limit words, NEED_REPLY on/off, peer reply header of one concrete class (conformant unless named in the harness), 40 symbolic body bytes, 0..=2 descriptors; one call" stubs="vmm-sys-util raw_recvmsg/raw_sendmsg (ghost stream socket), libc::close + OwnedFd::drop (ghost descriptor table), handle_alloc_error (assume false)"
 e_fe!(e_fe_reset_device, 34, 0);
-// @harness props=C01,C02,C03,C06,C07 tier=thorough reach=off timeout=500 bound="Frontend::get_max_mem_slots: all argument values, five 64-bit negotiation/limit words, NEED_REPLY on/off, peer reply header of one concrete class (conformant unless named in the harness), 40 symbolic body bytes, 0..=2 descriptors; one call" stubs="vmm-sys-util raw_recvmsg/raw_sendmsg (ghost stream socket), libc::close + OwnedFd::drop (ghost descriptor table), handle_alloc_error (assume false)"
+// @harness props=C01,C02,C03,C06,C07,C10 tier=thorough reach=off timeout=500 bound="Frontend::get_max_mem_slots: all argument values, five 64-bit negotiation/limit words, NEED_REPLY on/off, peer reply header of one concrete class (conformant unless named in the harness), 40 symbolic body bytes, 0..=2 descriptors; one call" stubs="vmm-sys-util raw_recvmsg/raw_sendmsg (ghost stream socket), libc::close + OwnedFd::drop (ghost descriptor table), handle_alloc_error (assume false)"
 e_fe!(e_fe_get_max_mem_slots, 36, 0);
-// @harness props=C01,C02,C03,C06,C07,C09 tier=quick reach=off timeout=500 bound="Frontend::add_mem_reg: all argument values, five 64-bit negotiation/limit words, NEED_REPLY on/off, peer reply header of one concrete class (conformant unless named in the harness), 40 symbolic body bytes, 0..=2 descriptors; one call" stubs="vmm-sys-util raw_recvmsg/raw_sendmsg (ghost stream socket), libc::close + OwnedFd::drop (ghost descriptor table), handle_alloc_error (assume false)"
+// @harness props=C01,C02,C03,C06,C07,C09,C10 tier=quick reach=off timeout=500 bound="Frontend::add_mem_reg: all argument values, five 64-bit negotiation/limit words, NEED_REPLY on/off, peer reply header of one concrete class (conformant unless named in the harness), 40 symbolic body bytes, 0..=2 descriptors; one call" stubs="vmm-sys-util raw_recvmsg/raw_sendmsg (ghost stream socket), libc::close + OwnedFd::drop (ghost descriptor table), handle_alloc_error (assume false)"
 e_fe!(e_fe_add_mem_reg, 37, 0);
-// @harness props=C01,C02,C03,C06,C07 tier=thorough reach=off timeout=500 bound="Frontend::rem_mem_reg: all argument values, five 64-bit negotiation/limit words, NEED_REPLY on/off, peer reply header of one concrete class (conformant unless named in the harness), 40 symbolic body bytes, 0..=2 descriptors; one call" stubs="vmm-sys-util raw_recvmsg/raw_sendmsg (ghost stream socket), libc::close + OwnedFd::drop (ghost descriptor table), handle_alloc_error (assume false)"
+// @harness props=C01,C02,C03,C06,C07,C10 tier=thorough reach=off timeout=500 bound="Frontend::rem_mem_reg: all argument values, five 64-bit negotiation/limit words, NEED_REPLY on/off, peer reply header of one concrete class (conformant unless named in the harness), 40 symbolic body bytes, 0..=2 descriptors; one call" stubs="vmm-sys-util raw_recvmsg/raw_sendmsg (ghost stream socket), libc::close + OwnedFd::drop (ghost descriptor table), handle_alloc_error (assume false)"
 e_fe!(e_fe_rem_mem_reg, 38, 0);
-// @harness props=C01,C02,C03,C06,C07,C09 tier=quick reach=off timeout=500 bound="Frontend::get_shared_object: all argument values, five 64-bit negotiation/limit words, NEED_REPLY on/off, peer reply header of one concrete class (conformant unless named in the harness), 40 symbolic body bytes, 0..=2 descriptors; one call" stubs="vmm-sys-util raw_recvmsg/raw_sendmsg (ghost stream socket), libc::close + OwnedFd::drop (ghost descriptor table), handle_alloc_error (assume false)"
+// @harness props=C01,C02,C03,C06,C07,C09,C10 tier=quick reach=off timeout=500 bound="Frontend::get_shared_object: all argument values, five 64-bit negotiation/limit words, NEED_REPLY on/off, peer reply header of one concrete class (conformant unless named in the harness), 40 symbolic body bytes, 0..=2 descriptors; one call" stubs="vmm-sys-util raw_recvmsg/raw_sendmsg (ghost stream socket), libc::close + OwnedFd::drop (ghost descriptor table), handle_alloc_error (assume false)"
 e_fe!(e_fe_get_shared_object, 41, 0);
-// @harness props=C01,C02,C03,C06,C07,C09 tier=thorough reach=off timeout=500 bound="Frontend::get_shared_object_foreign_code: all argument values, five 64-bit negotiation/limit words, NEED_REPLY on/off, peer reply header of one concrete class (conformant unless named in the harness), 40 symbolic body bytes, 0..=2 descriptors; one call" stubs="vmm-sys-util raw_recvmsg/raw_sendmsg (ghost stream socket), libc::close + OwnedFd::drop (ghost descriptor table), handle_alloc_error (assume false)"
+// @harness props=C01,C02,C03,C06,C07,C09,C10 tier=thorough reach=off timeout=500 bound="Frontend::get_shared_object_foreign_code: all argument values, five 64-bit negotiation/limit words, NEED_REPLY on/off, peer reply header of one concrete class (conformant unless named in the harness), 40 symbolic body bytes, 0..=2 descriptors; one call" stubs="vmm-sys-util raw_recvmsg/raw_sendmsg (ghost stream socket), libc::close + OwnedFd::drop (ghost descriptor table), handle_alloc_error (assume false)"
 e_fe!(e_fe_get_shared_object_foreign_code, 41, 256);
-// @harness props=C01,C02,C03,C06,C07,C09 tier=thorough reach=off timeout=500 bound="Frontend::get_shared_object_noreplyflag: all argument values, five 64-bit negotiation/limit words, NEED_REPLY on/off, peer reply header of one concrete class (conformant unless named in the harness), 40 symbolic body bytes, 0..=2 descriptors; one call" stubs="vmm-sys-util raw_recvmsg/raw_sendmsg (ghost stream socket), libc::close + OwnedFd::drop (ghost descriptor table), handle_alloc_error (assume false)"
+// @harness props=C01,C02,C03,C06,C07,C09,C10 tier=thorough reach=off timeout=500 bound="Frontend::get_shared_object_noreplyflag: all argument values, five 64-bit negotiation/limit words, NEED_REPLY on/off, peer reply header of one concrete class (conformant unless named in the harness), 40 symbolic body bytes, 0..=2 descriptors; one call" stubs="vmm-sys-util raw_recvmsg/raw_sendmsg (ghost stream socket), libc::close + OwnedFd::drop (ghost descriptor table), handle_alloc_error (assume false)"
 e_fe!(e_fe_get_shared_object_noreplyflag, 41, 512);
-// @harness props=C01,C02,C03,C06,C07,C09 tier=thorough reach=off timeout=500 bound="Frontend::get_shared_object_version2: all argument values, five 64-bit negotiation/limit words, NEED_REPLY on/off, peer reply header of one concrete class (conformant unless named in the harness), 40 symbolic body bytes, 0..=2 descriptors; one call" stubs="vmm-sys-util raw_recvmsg/raw_sendmsg (ghost stream socket), libc::close + OwnedFd::drop (ghost descriptor table), handle_alloc_error (assume false)"
+// @harness props=C01,C02,C03,C06,C07,C09,C10 tier=thorough reach=off timeout=500 bound="Frontend::get_shared_object_version2: all argument values, five 64-bit negotiation/limit words, NEED_REPLY on/off, peer reply header of one concrete class (conformant unless named in the harness), 40 symbolic body bytes, 0..=2 descriptors; one call" stubs="vmm-sys-util raw_recvmsg/raw_sendmsg (ghost stream socket), libc::close + OwnedFd::drop (ghost descriptor table), handle_alloc_error (assume false)"
 e_fe!(e_fe_get_shared_object_version2, 41, 768);
-// @harness props=C01,C02,C03,C06,C07,C09 tier=thorough reach=off timeout=500 bound="Frontend::get_shared_object_reservedbit: all argument values, five 64-bit negotiation/limit words, NEED_REPLY on/off, peer reply header of one concrete class (conformant unless named in the harness), 40 symbolic body bytes, 0..=2 descriptors; one call" stubs="vmm-sys-util raw_recvmsg/raw_sendmsg (ghost stream socket), libc::close + OwnedFd::drop (ghost descriptor table), handle_alloc_error (assume false)"
+// @harness props=C01,C02,C03,C06,C07,C09,C10 tier=thorough reach=off timeout=500 bound="Frontend::get_shared_object_reservedbit: all argument values, five 64-bit negotiation/limit words, NEED_REPLY on/off, peer reply header of one concrete class (conformant unless named in the harness), 40 symbolic body bytes, 0..=2 descriptors; one call" stubs="vmm-sys-util raw_recvmsg/raw_sendmsg (ghost stream socket), libc::close + OwnedFd::drop (ghost descriptor table), handle_alloc_error (assume false)"
 e_fe!(e_fe_get_shared_object_reservedbit, 41, 1024);
-// @harness props=C01,C02,C03,C06,C07,C09 tier=thorough reach=off timeout=500 bound="Frontend::get_shared_object_size_plus1: all argument values, five 64-bit negotiation/limit words, NEED_REPLY on/off, peer reply header of one concrete class (conformant unless named in the harness), 40 symbolic body bytes, 0..=2 descriptors; one call" stubs="vmm-sys-util raw_recvmsg/raw_sendmsg (ghost stream socket), libc::close + OwnedFd::drop (ghost descriptor table), handle_alloc_error (assume false)"
+// @harness props=C01,C02,C03,C06,C07,C09,C10 tier=thorough reach=off timeout=500 bound="Frontend::get_shared_object_size_plus1: all argument values, five 64-bit negotiation/limit words, NEED_REPLY on/off, peer reply header of one concrete class (conformant unless named in the harness), 40 symbolic body bytes, 0..=2 descriptors; one call" stubs="vmm-sys-util raw_recvmsg/raw_sendmsg (ghost stream socket), libc::close + OwnedFd::drop (ghost descriptor table), handle_alloc_error (assume false)"
 e_fe!(e_fe_get_shared_object_size_plus1, 41, 1280);
-// @harness props=C01,C02,C03,C06,C07,C09 tier=quick reach=off timeout=500 bound="Frontend::set_device_state_fd_file: all argument values, five 64-bit negotiation/limit words, NEED_REPLY on/off, peer reply header of one concrete class (conformant unless named in the harness), 40 symbolic body bytes, 0..=2 descriptors; one call" stubs="vmm-sys-util raw_recvmsg/raw_sendmsg (ghost stream socket), libc::close + OwnedFd::drop (ghost descriptor table), handle_alloc_error (assume false)"
+// @harness props=C01,C02,C03,C06,C07,C09,C10 tier=quick reach=off timeout=500 bound="Frontend::set_device_state_fd_file: all argument values, five 64-bit negotiation/limit words, NEED_REPLY on/off, peer reply header of one concrete class (conformant unless named in the harness), 40 symbolic body bytes, 0..=2 descriptors; one call" stubs="vmm-sys-util raw_recvmsg/raw_sendmsg (ghost stream socket), libc::close + OwnedFd::drop (ghost descriptor table), handle_alloc_error (assume false)"
 e_fe!(e_fe_set_device_state_fd_file, 42, 0);
-// @harness props=C01,C02,C03,C06,C07,C09 tier=thorough reach=off timeout=500 bound="Frontend::set_device_state_fd_nofile: all argument values, five 64-bit negotiation/limit words, NEED_REPLY on/off, peer reply header of one concrete class (conformant unless named in the harness), 40 symbolic body bytes, 0..=2 descriptors; one call" stubs="vmm-sys-util raw_recvmsg/raw_sendmsg (ghost stream socket), libc::close + OwnedFd::drop (ghost descriptor table), handle_alloc_error (assume false)"
+// @harness props=C01,C02,C03,C06,C07,C09,C10 tier=thorough reach=off timeout=500 bound="Frontend::set_device_state_fd_nofile: all argument values, five 64-bit negotiation/limit words, NEED_REPLY on/off, peer reply header of one concrete class (conformant unless named in the harness), 40 symbolic body bytes, 0..=2 descriptors; one call" stubs="vmm-sys-util raw_recvmsg/raw_sendmsg (ghost stream socket), libc::close + OwnedFd::drop (ghost descriptor table), handle_alloc_error (assume false)"
 e_fe!(e_fe_set_device_state_fd_nofile, 42, 1);
-// @harness props=C01,C02,C03,C06,C07 tier=quick reach=off timeout=500 bound="Frontend::check_device_state: all argument values, five 64-bit negotiation/limit words, NEED_REPLY on/off, peer reply header of one concrete class (conformant unless named in the harness), 40 symbolic body bytes, 0..=2 descriptors; one call" stubs="vmm-sys-util raw_recvmsg/raw_sendmsg (ghost stream socket), libc::close + OwnedFd::drop (ghost descriptor table), handle_alloc_error (assume false)"
+// @harness props=C01,C02,C03,C06,C07,C10 tier=quick reach=off timeout=500 bound="Frontend::check_device_state: all argument values, five 64-bit negotiation/limit words, NEED_REPLY on/off, peer reply header of one concrete class (conformant unless named in the harness), 40 symbolic body bytes, 0..=2 descriptors; one call" stubs="vmm-sys-util raw_recvmsg/raw_sendmsg (ghost stream socket), libc::close + OwnedFd::drop (ghost descriptor table), handle_alloc_error (assume false)"
 e_fe!(e_fe_check_device_state, 43, 0);
 // @harness props=C01,C03,C06,C07 tier=quick reach=off timeout=500 bound="Frontend::get_config(offset 0x10, 4 bytes, WRITABLE): conformant reply with 4 payload bytes; request/reply payload bytes and negotiation words symbolic" stubs="vmm-sys-util raw_recvmsg/raw_sendmsg (ghost stream socket), libc::close + OwnedFd::drop (ghost descriptor table), handle_alloc_error (assume false)"
 e_fe_cfg!(e_fe_get_config_reply, 0);
